@@ -4,9 +4,9 @@ CONSTANTS
   o3 = o3
   Ops = {o1, o2, o3}
   Kind <- KindDef2
-  FdOf <- FdDef
-  Dir <- DirR
-  Fds = {1, 2}
+  FdOf <- FdAll1
+  Dir <- DirRRW
+  Fds = {1}
   MaxLen = 14
   Eager = TRUE
 SPECIFICATION GSpec
